@@ -594,6 +594,23 @@ func (g *GoBackNConn) receivePacketsForever() error { // nolint:gocyclo
 				// expect of the next data packet.
 				g.log.Tracef("Got expected data %d", m.Seq)
 
+				// If the layer above has not taken the
+				// previous packets yet and we have no room
+				// left for this one, we treat it as lost: it
+				// is not acknowledged and will be sent again.
+				// Waiting for room instead would stop this
+				// goroutine from processing the ACKs and
+				// keepalive answers of the peer, so that our
+				// own sends and the keepalive would fail on a
+				// healthy connection.
+				if !m.IsPing &&
+					len(g.recvDataChan) == cap(g.recvDataChan) {
+
+					g.log.Tracef("No room for data %d", m.Seq)
+
+					continue
+				}
+
 				ack := &PacketACK{
 					Seq: m.Seq,
 				}
